@@ -186,6 +186,10 @@ class JBIG2StreamReader:
                 )
             else:
                 segment["raw_data"] = self.stream.read(length)
+        else:
+            # a segment without data (end of page, end of file) or a header
+            # cut short: the writer expects the field
+            segment["raw_data"] = b""
 
         return length
 
